@@ -571,3 +571,30 @@ Section Relabel.
       + destruct (r_shapes r); reflexivity.
   Qed.
 End Relabel.
+
+(* ------------------------------------------------------------------ *)
+(* the only collision of CPython's int hash among ints of magnitude < 2^61-1 is -1 / -2 *)
+Lemma hash_int_small : forall z, Z.abs z < P61 -> hash_int z = if z =? -1 then -2 else z.
+Proof.
+  intros z Hz. unfold hash_int. rewrite Z.mod_small by (split; [apply Z.abs_nonneg | exact Hz]).
+  replace (Z.sgn z * Z.abs z) with z by (destruct z; cbn [Z.sgn Z.abs]; lia).
+  reflexivity.
+Qed.
+
+Theorem hash_int_collisions_small : forall x y, Z.abs x < P61 -> Z.abs y < P61 ->
+  hash_int x = hash_int y -> x = y \/ (x = -1 /\ y = -2) \/ (x = -2 /\ y = -1).
+Proof.
+  intros x y Hx Hy. rewrite (hash_int_small x Hx), (hash_int_small y Hy).
+  destruct (Z.eqb_spec x (-1)) as [Ex|Ex]; destruct (Z.eqb_spec y (-1)) as [Ey|Ey]; intros H; lia.
+Qed.
+
+(* functools.lru_cache(typed=False): the dict is keyed on the argument tuple itself *)
+Theorem lru_cache_transparent : forall (R : Type) (f : pyval -> R) (calls : list pyval),
+  (forall a b, In a calls -> In b calls -> py_eqb a b = true -> f a = f b) ->
+  (forall a, In a calls -> py_hashable a = true) ->
+  cached_outputs (fun a => a) (fun _ => true) py_hashable false f calls = plain_outputs f calls.
+Proof.
+  intros R f calls Hf Hh. apply cache_transparent.
+  - intros a b Ha Hb _ _ _ _ He. exact (Hf a b Ha Hb He).
+  - right. intros a Ha _. exact (Hh a Ha).
+Qed.
